@@ -13,12 +13,13 @@ package main
 // falls back to plain reachability (a superset of paths: still sound) if the state budget is exhausted.
 
 import (
+	"fmt"
 	"go/constant"
 	"go/token"
 	"go/types"
+	"os"
 	"sort"
 	"strconv"
-	"strings"
 
 	"golang.org/x/tools/go/ssa"
 )
@@ -27,26 +28,66 @@ import (
 type vsVal struct {
 	t int8
 	c constant.Value
+	// pending: an assumption about the value the instruction will produce the next time the path executes it
+	// (used to assume something about "the element of this iteration"); it is not a fact yet
+	pending bool
 }
 
 type triEnv map[ssa.Value]vsVal
 
-func (e triEnv) key() string {
+func (e triEnv) key() string { return e.keyWith(nil) }
+
+// keyWith renders the environment canonically; ids gives small stable numbers to values (names are slow to build).
+func (e triEnv) keyWith(ids map[ssa.Value]int) string {
 	if len(e) == 0 {
 		return ""
 	}
-	ks := make([]string, 0, len(e))
+	type ent struct {
+		id int
+		nm string
+		v  vsVal
+	}
+	es := make([]ent, 0, len(e))
 	for v, t := range e {
-		if t.t != 0 || t.c != nil {
-			k := v.Name() + "=" + strconv.Itoa(int(t.t))
-			if t.c != nil {
-				k += "/" + t.c.ExactString()
+		if t.t == 0 && t.c == nil {
+			continue
+		}
+		if ids != nil {
+			id, ok := ids[v]
+			if !ok {
+				id = len(ids) + 1
+				ids[v] = id
 			}
-			ks = append(ks, k)
+			es = append(es, ent{id: id, v: t})
+		} else {
+			es = append(es, ent{nm: v.Name(), v: t})
 		}
 	}
-	sort.Strings(ks)
-	return strings.Join(ks, ",")
+	sort.Slice(es, func(i, j int) bool {
+		if es[i].id != es[j].id {
+			return es[i].id < es[j].id
+		}
+		return es[i].nm < es[j].nm
+	})
+	buf := make([]byte, 0, 16*len(es))
+	for _, x := range es {
+		if ids != nil {
+			buf = strconv.AppendInt(buf, int64(x.id), 10)
+		} else {
+			buf = append(buf, x.nm...)
+		}
+		buf = append(buf, '=')
+		buf = strconv.AppendInt(buf, int64(x.v.t), 10)
+		if x.v.c != nil {
+			buf = append(buf, '/')
+			buf = append(buf, x.v.c.ExactString()...)
+		}
+		if x.v.pending {
+			buf = append(buf, '?')
+		}
+		buf = append(buf, ',')
+	}
+	return string(buf)
 }
 
 // evalConst: the constant value of v along the path, if known.
@@ -57,7 +98,7 @@ func evalConst(v ssa.Value, env triEnv) constant.Value {
 	case *ssa.ChangeType:
 		return evalConst(x.X, env)
 	}
-	if t, ok := env[v]; ok {
+	if t, ok := env[v]; ok && !t.pending {
 		return t.c
 	}
 	return nil
@@ -73,10 +114,10 @@ func isNilable(v ssa.Value) bool {
 
 // evalTri evaluates a boolean value (1 false, 2 true) or the nil-ness of a nilable value (1 nil, 2 non-nil); 0 = unknown.
 func evalTri(v ssa.Value, env triEnv) int8 {
-	if t, ok := env[v]; ok && t.t != 0 {
+	if t, ok := env[v]; ok && t.t != 0 && !t.pending {
 		return t.t
 	}
-	if t, ok := env[v]; ok && t.c != nil && t.c.Kind() == constant.Bool {
+	if t, ok := env[v]; ok && !t.pending && t.c != nil && t.c.Kind() == constant.Bool {
 		if constant.BoolVal(t.c) {
 			return 2
 		}
@@ -158,13 +199,14 @@ func (g *IG) relevantValues() map[ssa.Value]bool {
 	}
 	rel := map[ssa.Value]bool{}
 	tested := map[ssa.Value]int{}
+	flagPhi := map[*ssa.Phi]bool{}
 	for _, in := range g.instrs {
 		switch x := in.(type) {
 		case *ssa.Phi:
-			rel[x] = true
+			// a phi matters when one of its operands is a constant (a flag, an error that may be nil, an enumeration)
 			for _, e := range x.Edges {
-				if _, isConst := e.(*ssa.Const); !isConst {
-					rel[e] = true
+				if _, isConst := e.(*ssa.Const); isConst {
+					flagPhi[x] = true
 				}
 			}
 		case *ssa.If:
@@ -187,6 +229,33 @@ func (g *IG) relevantValues() map[ssa.Value]bool {
 			}
 		}
 	}
+	// phis that merge flag phis are flags as well
+	for changed := true; changed; {
+		changed = false
+		for _, in := range g.instrs {
+			if x, ok := in.(*ssa.Phi); ok && !flagPhi[x] {
+				for _, e := range x.Edges {
+					if p2, ok := e.(*ssa.Phi); ok && flagPhi[p2] {
+						flagPhi[x] = true
+						changed = true
+					}
+				}
+			}
+		}
+	}
+	for p := range flagPhi {
+		// only flags that some test can observe (directly or through another flag)
+		rel[p] = true
+		for _, e := range p.Edges {
+			if _, isConst := e.(*ssa.Const); !isConst {
+				if _, isPhi := e.(*ssa.Phi); !isPhi {
+					if tested[e] > 0 || evalTri(e, nil) != 0 {
+						rel[e] = true
+					}
+				}
+			}
+		}
+	}
 	for v, n := range tested {
 		if n >= 2 {
 			rel[v] = true
@@ -194,6 +263,94 @@ func (g *IG) relevantValues() map[ssa.Value]bool {
 	}
 	g.relevant = rel
 	return rel
+}
+
+// factLiveness: for every block, the relevant values a fact about which can still influence something reachable from
+// the block's entry: a test of the value (directly or through a comparison / negation) or a relevant phi fed by it.
+func (g *IG) factLiveness(rel map[ssa.Value]bool, cacheable bool) map[*ssa.BasicBlock]map[ssa.Value]bool {
+	key := len(rel)
+	if cacheable && g.liveCache != nil && g.liveKey == key {
+		return g.liveCache
+	}
+	// use sites: value -> blocks at whose END the value is consumed
+	uses := map[ssa.Value]map[*ssa.BasicBlock]bool{}
+	add := func(v ssa.Value, b *ssa.BasicBlock) {
+		if !rel[v] {
+			return
+		}
+		if uses[v] == nil {
+			uses[v] = map[*ssa.BasicBlock]bool{}
+		}
+		uses[v][b] = true
+	}
+	var operandsOfCond func(v ssa.Value, b *ssa.BasicBlock, depth int)
+	operandsOfCond = func(v ssa.Value, b *ssa.BasicBlock, depth int) {
+		if depth > 4 {
+			return
+		}
+		add(v, b)
+		switch x := v.(type) {
+		case *ssa.UnOp:
+			if x.Op == token.NOT {
+				operandsOfCond(x.X, b, depth+1)
+			}
+		case *ssa.BinOp:
+			operandsOfCond(x.X, b, depth+1)
+			operandsOfCond(x.Y, b, depth+1)
+		case *ssa.ChangeInterface:
+			operandsOfCond(x.X, b, depth+1)
+		case *ssa.ChangeType:
+			operandsOfCond(x.X, b, depth+1)
+		}
+	}
+	for _, b := range g.fn.Blocks {
+		if len(b.Instrs) == 0 {
+			continue
+		}
+		if iff, ok := b.Instrs[len(b.Instrs)-1].(*ssa.If); ok {
+			operandsOfCond(iff.Cond, b, 0)
+		}
+		for _, in := range b.Instrs {
+			phi, ok := in.(*ssa.Phi)
+			if !ok {
+				break
+			}
+			if !rel[phi] {
+				continue
+			}
+			for i, e := range phi.Edges {
+				operandsOfCond(e, b.Preds[i], 0)
+			}
+		}
+	}
+	out := map[*ssa.BasicBlock]map[ssa.Value]bool{}
+	for _, b := range g.fn.Blocks {
+		out[b] = map[ssa.Value]bool{}
+	}
+	for v, bs := range uses {
+		// backward reachability from the use blocks
+		seen := map[*ssa.BasicBlock]bool{}
+		var stack []*ssa.BasicBlock
+		for b := range bs {
+			seen[b] = true
+			stack = append(stack, b)
+		}
+		for len(stack) > 0 {
+			b := stack[len(stack)-1]
+			stack = stack[:len(stack)-1]
+			out[b][v] = true
+			for _, p := range b.Preds {
+				if !seen[p] {
+					seen[p] = true
+					stack = append(stack, p)
+				}
+			}
+		}
+	}
+	if cacheable {
+		g.liveCache, g.liveKey = out, key
+	}
+	return out
 }
 
 // learn records what taking the k-th edge of an If teaches.
@@ -304,10 +461,22 @@ func (g *IG) reachVSInit(starts []int, stop func(ssa.Instruction) bool, edgeOK f
 	}
 	reached := make([]bool, len(g.instrs))
 	seen := map[string]bool{}
+	if g.valIDs == nil {
+		g.valIDs = map[ssa.Value]int{}
+	}
 	var stack []st
 	for _, s := range starts {
 		env := triEnv{}
 		for v, t := range init {
+			if vi, isInstr := v.(ssa.Instruction); isInstr && vi.Block() != nil {
+				if _, isPhi := v.(*ssa.Phi); !isPhi {
+					sb := g.instrs[s].Block()
+					before := vi.Block() != sb && vi.Block().Dominates(sb) || vi.Block() == sb && g.idx[vi] < s
+					if !before {
+						t.pending = true
+					}
+				}
+			}
 			env[v] = t
 		}
 		// a start at the head of a block with a single predecessor inherits what that edge teaches
@@ -325,48 +494,79 @@ func (g *IG) reachVSInit(starts []int, stop func(ssa.Instruction) bool, edgeOK f
 		}
 		stack = append(stack, st{s, env})
 	}
+	live := g.factLiveness(rel, len(init) == 0)
 	states := 0
 	for len(stack) > 0 {
 		cur := stack[len(stack)-1]
 		stack = stack[:len(stack)-1]
-		k := strconv.Itoa(cur.n) + "|" + cur.env.key()
+		// facts about values that no reachable test or phi can observe any more are dropped (keeps the state space small)
+		if lb := live[g.instrs[cur.n].Block()]; lb != nil {
+			var drop []ssa.Value
+			for v, t := range cur.env {
+				if !lb[v] && !t.pending {
+					drop = append(drop, v)
+				}
+			}
+			if len(drop) > 0 {
+				nenv := triEnv{}
+				for a, t := range cur.env {
+					nenv[a] = t
+				}
+				for _, v := range drop {
+					delete(nenv, v)
+				}
+				cur.env = nenv
+			}
+		}
+		k := strconv.Itoa(cur.n) + "|" + cur.env.keyWith(g.valIDs)
 		if seen[k] {
 			continue
 		}
 		seen[k] = true
 		states++
 		if states > reachVSBudget {
+			if os.Getenv("GOCHK_VS_DEBUG") != "" {
+				fmt.Fprintf(os.Stderr, "reachVS: budget exhausted in %s (%d relevant values)\n", short(g.fn), len(rel))
+			}
 			return nil, false
 		}
-		reached[cur.n] = true
-		in := g.instrs[cur.n]
-		if stop != nil && stop(in) {
-			continue
-		}
+		// walk the rest of the block without creating intermediate states
 		env := cur.env
-		// executing the definition of a value again invalidates what was known about it
-		if v, ok := in.(ssa.Value); ok {
-			if _, isPhi := in.(*ssa.Phi); !isPhi {
-				if _, had := env[v]; had {
-					nenv := triEnv{}
-					for a, t := range env {
-						if a != v {
-							nenv[a] = t
+		n := cur.n
+		b := g.instrs[n].Block()
+		last := g.first[b] + len(b.Instrs) - 1
+		stopped := false
+		for ; n <= last; n++ {
+			reached[n] = true
+			in := g.instrs[n]
+			if stop != nil && stop(in) {
+				stopped = true
+				break
+			}
+			// executing the definition of a value again invalidates what was known about it
+			if v, ok := in.(ssa.Value); ok {
+				if _, isPhi := in.(*ssa.Phi); !isPhi {
+					if old, had := env[v]; had {
+						nenv := triEnv{}
+						for a, t := range env {
+							if a != v {
+								nenv[a] = t
+							}
 						}
+						if old.pending {
+							old.pending = false
+							nenv[v] = old // the assumption applies to this execution
+						}
+						env = nenv
 					}
-					env = nenv
 				}
 			}
 		}
-		b := in.Block()
-		isTerm := b.Instrs[len(b.Instrs)-1] == in
-		if !isTerm {
-			for _, m := range g.succ[cur.n] {
-				stack = append(stack, st{m, env})
-			}
+		if stopped {
 			continue
 		}
-		for ki, m := range g.succ[cur.n] {
+		in := g.instrs[last]
+		for ki, m := range g.succ[last] {
 			iff, isIf := in.(*ssa.If)
 			if isIf && b.Succs[0] != b.Succs[1] {
 				if v := evalTri(iff.Cond, env); (v == 2 && ki == 1) || (v == 1 && ki == 0) {
@@ -406,6 +606,9 @@ func (g *IG) reachVSInit(starts []int, stop func(ssa.Instruction) bool, edgeOK f
 				if !ok {
 					break
 				}
+				if !rel[phi] {
+					continue
+				}
 				var t vsVal
 				if predIdx >= 0 && npred == 1 {
 					t.t = evalTri(phi.Edges[predIdx], nenv)
@@ -424,6 +627,9 @@ func (g *IG) reachVSInit(starts []int, stop func(ssa.Instruction) bool, edgeOK f
 			}
 			stack = append(stack, st{m, nenv})
 		}
+	}
+	if os.Getenv("GOCHK_VS_DEBUG") != "" && states > 20000 {
+		fmt.Fprintf(os.Stderr, "reachVS: %d states in %s (%d relevant values)\n", states, short(g.fn), len(rel))
 	}
 	return reached, true
 }
